@@ -358,24 +358,27 @@ theorem inv_reset (d : Dec) : Inv d.reset.1 := by
 theorem inv_finalize (d : Dec) : Inv d.finalize.1 := inv_reset d
 
 /-- the result of `_push_byte` is acceptable: the new state satisfies the invariant and the
-outcome is not a panic; the buffer capacity is `c` -/
-def Good (c : Option Nat) (x : Dec × Res) : Prop :=
-  Inv x.1 ∧ x.1.buf.cap = c ∧ ∀ s, x.2 ≠ .panic s
+outcome is not a panic; the buffer capacity is `c`, and `raw` is at most `B` -/
+def Good (c : Option Nat) (B : Nat) (x : Dec × Res) : Prop :=
+  Inv x.1 ∧ x.1.buf.cap = c ∧ x.1.raw ≤ B ∧ ∀ s, x.2 ≠ .panic s
 
-theorem afterPush_pushList_good {c : Option Nat} {d0 d : Dec} {l : List UInt8}
+theorem Good.mono {c : Option Nat} {B B' : Nat} {x : Dec × Res} (h : Good c B x) (hB : B ≤ B') :
+    Good c B' x := ⟨h.1, h.2.1, Nat.le_trans h.2.2.1 hB, h.2.2.2⟩
+
+theorem afterPush_pushList_good {c : Option Nat} {B : Nat} {d0 d : Dec} {l : List UInt8}
     {k : Dec → Dec × Res} (hwf : d.buf.WF) (h0 : d0.buf.cap = c)
-    (hk : (d.dataSteps l).buf.WF → Good c (k (d.dataSteps l))) :
-    Good c (afterPush d0 (d.pushList l) k) := by
+    (hk : (d.dataSteps l).buf.WF → Good c B (k (d.dataSteps l))) :
+    Good c B (afterPush d0 (d.pushList l) k) := by
   rw [pushList_eq l hwf]
   by_cases h : (d.dataSteps l).buf.WF
   · simp only [h, if_true, afterPush]
     exact hk h
   · simp only [h, if_false, afterPush]
-    exact ⟨inv_reset d0, h0, fun s => by simp⟩
+    exact ⟨inv_reset d0, h0, Nat.zero_le _, fun s => by simp⟩
 
 theorem pushLook_good {d : Dec} {disc init : Nat} (b : UInt8) (hz : d.zc = 0)
     (hwf : d.buf.WF) (hr : d.buf.rdata = []) (hi : init ≤ 7) (hraw : d.raw = disc + init + 1) :
-    Good d.buf.cap (pushLook d disc init b) := by
+    Good d.buf.cap d.raw (pushLook d disc init b) := by
   unfold pushLook
   by_cases hc : (b = 0x1b ∧ init < 4) ∨ (b = 0x01 ∧ init ≥ 4)
   · have h255 : ¬ (init + 1 > 255) := by omega
@@ -385,10 +388,10 @@ theorem pushLook_good {d : Dec} {disc init : Nat} (b : UInt8) (hz : d.zc = 0)
       have hI : Inv { d with st := .normal, raw := 8, crc := startCrc } :=
         ⟨by simp [hz], hwf, by simp [Buf.len, hr, hz]⟩
       by_cases hd : disc > 0
-      · simp only [hd, if_true]; exact ⟨hI, (by first | rfl | exact g.cap), fun s => by simp⟩
-      · simp only [hd, if_false]; exact ⟨hI, (by first | rfl | exact g.cap), fun s => by simp⟩
+      · simp only [hd, if_true]; exact ⟨hI, (by first | rfl | exact g.cap), (by first | exact Nat.le_refl _ | exact Nat.zero_le _ | (have := g.raw; simp only at this ⊢; omega) | (simp only; omega)), fun s => by simp⟩
+      · simp only [hd, if_false]; exact ⟨hI, (by first | rfl | exact g.cap), (by first | exact Nat.le_refl _ | exact Nat.zero_le _ | (have := g.raw; simp only at this ⊢; omega) | (simp only; omega)), fun s => by simp⟩
     · simp only [h8, if_false]
-      refine ⟨⟨by simp [hz], hwf, ?_⟩, (by first | rfl | exact g.cap), fun s => by simp⟩
+      refine ⟨⟨by simp [hz], hwf, ?_⟩, (by first | rfl | exact g.cap), (by first | exact Nat.le_refl _ | exact Nat.zero_le _ | (have := g.raw; simp only at this ⊢; omega) | (simp only; omega)), fun s => by simp⟩
       simp only
       exact ⟨by omega, hz, hr, by omega⟩
   · simp only [hc, if_false]
@@ -402,16 +405,16 @@ theorem pushLook_good {d : Dec} {disc init : Nat} (b : UInt8) (hz : d.zc = 0)
     have hlt : ¬ (1 + init < (if b = 0x1b then (if init = 4 then 4 else 1) else 0 : Nat)) := by
       omega
     simp only [hlt, if_false]
-    refine ⟨⟨by simp [hz], hwf, ?_⟩, (by first | rfl | exact g.cap), fun s => by simp⟩
+    refine ⟨⟨by simp [hz], hwf, ?_⟩, (by first | rfl | exact g.cap), (by first | exact Nat.le_refl _ | exact Nat.zero_le _ | (have := g.raw; simp only at this ⊢; omega) | (simp only; omega)), fun s => by simp⟩
     simp only
     exact ⟨by omega, hz, hr, by omega⟩
 
 theorem pushEnd_good {d : Dec} (q : Quad) (hwf : d.buf.WF)
-    (hlen : d.buf.len + d.zc + 16 ≤ d.raw) : Good d.buf.cap (pushEnd d q) := by
+    (hlen : d.buf.len + d.zc + 16 ≤ d.raw) : Good d.buf.cap d.raw (pushEnd d q) := by
   unfold pushEnd
   simp only
   split
-  · exact ⟨inv_reset _, (by first | rfl | exact g.cap), fun s => by simp⟩
+  · exact ⟨inv_reset _, (by first | rfl | exact g.cap), (by first | exact Nat.le_refl _ | exact Nat.zero_le _ | (have := g.raw; simp only at this ⊢; omega) | (simp only; omega)), fun s => by simp⟩
   · next hbad =>
     simp only [Bool.or_eq_true, not_or, decide_eq_true_eq] at hbad
     have hpad : q.b.toNat ≤ d.zc := by
@@ -422,16 +425,16 @@ theorem pushEnd_good {d : Dec} (q : Quad) (hwf : d.buf.WF)
     by_cases hroom : ({ d with crc := crcInit, zc := d.zc - q.b.toNat } : Dec).room (d.zc - q.b.toNat)
     · simp only [hroom, if_true]
       refine ⟨⟨by simp, wf_setBuf_of_room hroom 0 (by simp [Buf.len]; omega), ?_⟩, rfl,
-        fun s => by simp⟩
+        Nat.le_refl _, fun s => by simp⟩
       simp only [setBuf_len, List.length_append, List.length_replicate]
       simp only [Buf.len] at hlen
       show d.zc - q.b.toNat + d.buf.rdata.length + 16 ≤ d.raw
       omega
     · simp only [hroom, if_false]
-      exact ⟨inv_reset _, (by first | rfl | exact g.cap), fun s => by simp⟩
+      exact ⟨inv_reset _, (by first | rfl | exact g.cap), (by first | exact Nat.le_refl _ | exact Nat.zero_le _ | (have := g.raw; simp only at this ⊢; omega) | (simp only; omega)), fun s => by simp⟩
 
 theorem pushEscComplete_good {d : Dec} (q : Quad) (hz : d.zc ≤ 4) (hwf : d.buf.WF)
-    (hlen : d.buf.len + d.zc + 16 ≤ d.raw) : Good d.buf.cap (pushEscComplete d q) := by
+    (hlen : d.buf.len + d.zc + 16 ≤ d.raw) : Good d.buf.cap d.raw (pushEscComplete d q) := by
   unfold pushEscComplete
   by_cases h1 : q = ⟨0x1b, 0x1b, 0x1b, 0x1b⟩
   · simp only [h1, if_true]
@@ -439,7 +442,7 @@ theorem pushEscComplete_good {d : Dec} (q : Quad) (hz : d.zc ≤ 4) (hwf : d.buf
     intro hwf'
     have g := grow_dataSteps (Quad.toList ⟨0x1b, 0x1b, 0x1b, 0x1b⟩)
       { d with crc := crcUpdate d.crc (Quad.toList ⟨0x1b, 0x1b, 0x1b, 0x1b⟩) }
-    refine ⟨⟨g.zc hz, hwf', ?_⟩, (by first | rfl | exact g.cap), fun s => by simp⟩
+    refine ⟨⟨g.zc hz, hwf', ?_⟩, (by first | rfl | exact g.cap), (by first | exact Nat.le_refl _ | exact Nat.zero_le _ | (have := g.raw; simp only at this ⊢; omega) | (simp only; omega)), fun s => by simp⟩
     have h1 := g.len
     have h2 := g.raw
     simp only [Quad.toList, List.length_cons, List.length_nil] at h1 h2 ⊢
@@ -448,7 +451,7 @@ theorem pushEscComplete_good {d : Dec} (q : Quad) (hz : d.zc ≤ 4) (hwf : d.buf
     by_cases h2 : q = ⟨0x01, 0x01, 0x01, 0x01⟩
     · have h8 : ¬ (d.raw < 8) := by omega
       simp only [h2, if_true, h8, if_false]
-      exact ⟨⟨by simp, wf_clear _, by simp [Buf.clear, Buf.len]⟩, (by first | rfl | exact g.cap), fun s => by simp⟩
+      exact ⟨⟨by simp, wf_clear _, by simp [Buf.clear, Buf.len]⟩, (by first | rfl | exact g.cap), (by first | exact Nat.le_refl _ | exact Nat.zero_le _ | (have := g.raw; simp only at this ⊢; omega) | (simp only; omega)), fun s => by simp⟩
     · simp only [h2, if_false]
       by_cases h3 : q.a = 0x1a
       · simp only [h3, if_true]
@@ -462,16 +465,16 @@ theorem pushEscComplete_good {d : Dec} (q : Quad) (hz : d.zc ≤ 4) (hwf : d.buf
           intro hwf'
           have g := grow_dataSteps (List.replicate ((4 - d.raw % 4) % 4) 0x1b)
             { d with crc := crcUpdate d.crc (q.toList.take ((4 - d.raw % 4) % 4)) }
-          refine ⟨⟨g.zc hz, hwf', ?_⟩, (by first | rfl | exact g.cap), fun s => by simp⟩
+          refine ⟨⟨g.zc hz, hwf', ?_⟩, (by first | rfl | exact g.cap), (by first | exact Nat.le_refl _ | exact Nat.zero_le _ | (have := g.raw; simp only at this ⊢; omega) | (simp only; omega)), fun s => by simp⟩
           have h1 := g.len
           have h2 := g.raw
           simp only [List.length_replicate] at h1 h2 ⊢
           have := hk.1
           omega
-        · exact ⟨inv_reset _, (by first | rfl | exact g.cap), fun s => by simp⟩
+        · exact ⟨inv_reset _, (by first | rfl | exact g.cap), (by first | exact Nat.le_refl _ | exact Nat.zero_le _ | (have := g.raw; simp only at this ⊢; omega) | (simp only; omega)), fun s => by simp⟩
 
 /-- `_push_byte` preserves the invariant and never panics -/
-theorem pushByte_good {d : Dec} (h : Inv d) (b : UInt8) : Good d.buf.cap (d.pushByte b) := by
+theorem pushByte_good {d : Dec} (h : Inv d) (b : UInt8) : Good d.buf.cap (d.raw + 1) (d.pushByte b) := by
   obtain ⟨hz, hwf, hst⟩ := h
   rcases d with ⟨raw, crc, st, zc, buf⟩
   simp only at hz hwf hst
@@ -482,20 +485,21 @@ theorem pushByte_good {d : Dec} (h : Inv d) (b : UInt8) : Good d.buf.cap (d.push
     exact pushLook_good b hst.2.1 hwf hst.2.2.1 hst.1 (by simp [hst.2.2.2])
   | done =>
     simp only [pushByte, reset]
-    exact pushLook_good b rfl (wf_clear _) rfl (by omega) rfl
+    exact (pushLook_good (disc := 0) (init := 0) b rfl (wf_clear _) rfl (by omega) rfl).mono
+      (by simp)
   | normal =>
     simp only at hst
     simp only [pushByte]
     by_cases hb : b = 0x1b
     · simp only [hb, if_true]
-      exact ⟨⟨hz, hwf, by simp only; omega⟩, (by first | rfl | exact g.cap), fun s => by simp⟩
+      exact ⟨⟨hz, hwf, by simp only; omega⟩, (by first | rfl | exact g.cap), (by first | exact Nat.le_refl _ | exact Nat.zero_le _ | (have := g.raw; simp only at this ⊢; omega) | (simp only; omega)), fun s => by simp⟩
     · simp only [hb, if_false]
       rw [pushData_eq_pushList]
       refine afterPush_pushList_good (by exact hwf) rfl ?_
       intro hwf'
       have g := grow_dataSteps [b]
         { raw := raw + 1, crc := crcByte crc b, st := .normal, zc := zc, buf := buf }
-      refine ⟨⟨g.zc hz, hwf', ?_⟩, (by first | rfl | exact g.cap), fun s => by simp⟩
+      refine ⟨⟨g.zc hz, hwf', ?_⟩, (by first | rfl | exact g.cap), (by first | exact Nat.le_refl _ | exact Nat.zero_le _ | (have := g.raw; simp only at this ⊢; omega) | (simp only; omega)), fun s => by simp⟩
       have h1 := g.len
       have h2 := g.raw
       have h3 := g.st
@@ -510,10 +514,10 @@ theorem pushByte_good {d : Dec} (h : Inv d) (b : UInt8) : Good d.buf.cap (d.push
     · simp only [hb, ne_eq, not_true_eq_false, if_false]
       by_cases h3 : n = 3
       · simp only [h3, if_true]
-        exact ⟨⟨hz, hwf, by simp only; omega⟩, (by first | rfl | exact g.cap), fun s => by simp⟩
+        exact ⟨⟨hz, hwf, by simp only; omega⟩, (by first | rfl | exact g.cap), (by first | exact Nat.le_refl _ | exact Nat.zero_le _ | (have := g.raw; simp only at this ⊢; omega) | (simp only; omega)), fun s => by simp⟩
       · have h255 : ¬ (n + 1 > 255) := by omega
         simp only [h3, if_false, h255]
-        exact ⟨⟨hz, hwf, by simp only; omega⟩, (by first | rfl | exact g.cap), fun s => by simp⟩
+        exact ⟨⟨hz, hwf, by simp only; omega⟩, (by first | rfl | exact g.cap), (by first | exact Nat.le_refl _ | exact Nat.zero_le _ | (have := g.raw; simp only at this ⊢; omega) | (simp only; omega)), fun s => by simp⟩
     · simp only [ne_eq, hb, not_false_eq_true, if_true]
       rw [pushRep_eq_pushList]
       refine afterPush_pushList_good (by exact hwf) rfl ?_
@@ -527,7 +531,7 @@ theorem pushByte_good {d : Dec} (h : Inv d) (b : UInt8) : Good d.buf.cap (d.push
         { raw := raw + 1, crc := crcByte crc b, st := .escChars n, zc := zc, buf := buf }
         (List.replicate n 0x1b))
       have g := g1.trans g2
-      refine ⟨⟨g.zc hz, hwf2, ?_⟩, (by first | rfl | exact g.cap), fun s => by simp⟩
+      refine ⟨⟨g.zc hz, hwf2, ?_⟩, (by first | rfl | exact g.cap), (by first | exact Nat.le_refl _ | exact Nat.zero_le _ | (have := g.raw; simp only at this ⊢; omega) | (simp only; omega)), fun s => by simp⟩
       have h1 := g.len
       have h2 := g.raw
       simp only [List.length_cons, List.length_nil, List.length_replicate] at h1 h2 ⊢
@@ -542,7 +546,7 @@ theorem pushByte_good {d : Dec} (h : Inv d) (b : UInt8) : Good d.buf.cap (d.push
     simp only [hq']
     by_cases h3 : step < 3
     · simp only [h3, if_true]
-      exact ⟨⟨hz, hwf, by simp only; omega⟩, (by first | rfl | exact g.cap), fun s => by simp⟩
+      exact ⟨⟨hz, hwf, by simp only; omega⟩, (by first | rfl | exact g.cap), (by first | exact Nat.le_refl _ | exact Nat.zero_le _ | (have := g.raw; simp only at this ⊢; omega) | (simp only; omega)), fun s => by simp⟩
     · simp only [h3, if_false]
       exact pushEscComplete_good q' hz hwf (by simp only; omega)
 
@@ -661,8 +665,11 @@ theorem push_inv {d : Dec} (h : Inv d) (b : UInt8) : Inv (d.push b).1 := by
 theorem push_cap {d : Dec} (h : Inv d) (b : UInt8) : (d.push b).1.buf.cap = d.buf.cap := by
   rw [push_fst]; exact (pushByte_good h b).2.1
 
+theorem pushByte_raw_le {d : Dec} (h : Inv d) (b : UInt8) : (d.pushByte b).1.raw ≤ d.raw + 1 :=
+  (pushByte_good h b).2.2.1
+
 theorem pushByte_no_panic {d : Dec} (h : Inv d) (b : UInt8) (s : String) :
-    (d.pushByte b).2 ≠ .panic s := (pushByte_good h b).2.2 s
+    (d.pushByte b).2 ≠ .panic s := (pushByte_good h b).2.2.2 s
 
 theorem push_no_panic {d : Dec} (h : Inv d) (b : UInt8) (s : String) :
     (d.push b).2 ≠ .panic s := by
@@ -810,6 +817,28 @@ theorem allItems_cons (d : Dec) (b : UInt8) (bs : List UInt8) :
   rw [pushAll_cons]
   cases h : (d.push b).2.toItem? <;> simp [h]
 
+theorem finItems_length_le (d : Dec) : d.finItems.length ≤ 1 := by
+  unfold finItems; split <;> simp
+
+/-- at most one item per byte, plus one for `finalize` -/
+theorem allItems_length_le (d : Dec) (s : List UInt8) : (d.allItems s).length ≤ s.length + 1 := by
+  unfold allItems
+  have h1 := List.length_filterMap_le Out.toItem? (d.pushAll s).2
+  have h2 := finItems_length_le (d.pushAll s).1
+  rw [pushAll_length] at h1
+  rw [List.length_append]
+  omega
+
+/-- `finalize` reports nothing or a `DiscardedBytes` error -/
+theorem finalize_cases (d : Dec) :
+    d.finalize.2 = none ∨ d.finalize.2 = some (.discarded d.raw) := by
+  unfold finalize
+  simp only
+  split
+  · exact Or.inl rfl
+  · exact Or.inl rfl
+  · exact Or.inr rfl
+
 /-- `finalize` and `reset` report the same count -/
 theorem finalize_eq_reset {d : Dec} (h : Inv d) :
     d.finalize.2 = if d.reset.2 = 0 then none else some (.discarded d.reset.2) := by
@@ -839,6 +868,17 @@ theorem finalize_eq_reset {d : Dec} (h : Inv d) :
     have h0 : ¬ (raw = 0) := by omega
     simp [finalize, reset, h0]
   | done => simp [finalize, reset]
+
+/-- a `DiscardedBytes` error reported by `finalize` never carries the count 0 -/
+theorem finalize_discarded_pos {d : Dec} (h : Inv d) {n : Nat}
+    (hf : d.finalize.2 = some (.discarded n)) : 0 < n := by
+  rw [finalize_eq_reset h] at hf
+  split at hf
+  · cases hf
+  · next h0 =>
+    have := Option.some.inj hf
+    injection this with this
+    omega
 
 end Dec
 
@@ -908,6 +948,40 @@ theorem padTo_cons {α : Type} (x y : α) (l : List α) (k : Nat) :
 
 theorem padTo_length {α : Type} (x : α) (l : List α) (k : Nat) : (padTo x l k).length = k := by
   simp [padTo]
+
+/-- the results before the first `None` -/
+def cutNone {α : Type} : List (Option α) → List α
+  | [] => []
+  | none :: _ => []
+  | some x :: l => x :: cutNone l
+
+/-- if more calls are made than there are items, cutting at the first `None` returns the items -/
+theorem cutNone_padTo {α : Type} (l : List α) : ∀ {k : Nat}, l.length < k →
+    cutNone (padTo none (l.map some) k) = l := by
+  induction l with
+  | nil =>
+    intro k hk
+    cases k with
+    | zero => simp at hk
+    | succ k => rw [List.map_nil, padTo_nil, List.replicate_succ]; rfl
+  | cons x l ih =>
+    intro k hk
+    cases k with
+    | zero => simp at hk
+    | succ k =>
+      rw [List.map_cons, padTo_cons, cutNone, ih (by simpa using hk)]
+
+/-- the elements of `padTo x l k` beyond `l` are `x` -/
+theorem getElem?_padTo {α : Type} (x : α) (l : List α) (k i : Nat) (hi : i < k) :
+    (padTo x l k)[i]? = some (l[i]?.getD x) := by
+  unfold padTo
+  rw [List.getElem?_take_of_lt hi, List.getElem?_append]
+  split
+  · next h => simp [h]
+  · next h =>
+    have h' : l.length ≤ i := by omega
+    rw [List.getElem?_replicate, if_pos (by omega), List.getElem?_eq_none h']
+    rfl
 
 namespace DecIter
 
@@ -1135,7 +1209,7 @@ theorem readLoop_good (kind : SrcKind) (evs : List Ev) : ∀ {d : Dec}, Dec.Inv 
         have hd := Dec.pushByte_ready hp
         exact ⟨hg.1, fun t => by simp [Dec.borrowBuf, Dec.isDone, hd]⟩
       | err e => exact ⟨hg.1, fun t => by simp⟩
-      | panic t => exact absurd rfl (hg.2.2 t)
+      | panic t => exact absurd rfl (hg.2.2.2 t)
     | wouldBlock => rw [readLoop]; exact onIoErr_good _ h _ _
     | interrupted =>
       cases kind
@@ -1468,6 +1542,233 @@ theorem pushAll_after_boundary (cap : Option Nat) (s1 : List UInt8)
     fun s hc => h3 s (OpOut.out.inj hc)⟩
   rw [← (pushAll_eq_run s1 _).2, List.getLast?_map, hlast]
   rfl
+
+/-! ### 8. the buffer capacity does not matter as long as it is not exceeded -/
+
+/-- the same decoder over a buffer of capacity `c` -/
+def withCap (d : Dec) (c : Option Nat) : Dec := { d with buf := { d.buf with cap := c } }
+
+@[simp] theorem withCap_raw (d : Dec) (c) : (d.withCap c).raw = d.raw := rfl
+@[simp] theorem withCap_zc (d : Dec) (c) : (d.withCap c).zc = d.zc := rfl
+@[simp] theorem withCap_st (d : Dec) (c) : (d.withCap c).st = d.st := rfl
+@[simp] theorem withCap_crc (d : Dec) (c) : (d.withCap c).crc = d.crc := rfl
+@[simp] theorem withCap_cap (d : Dec) (c) : (d.withCap c).buf.cap = c := rfl
+@[simp] theorem withCap_rdata (d : Dec) (c) : (d.withCap c).buf.rdata = d.buf.rdata := rfl
+@[simp] theorem withCap_len (d : Dec) (c) : (d.withCap c).buf.len = d.buf.len := rfl
+theorem withCap_fresh (c c' : Option Nat) : (fresh c).withCap c' = fresh c' := rfl
+theorem withCap_reset (d : Dec) (c) : (d.withCap c).reset.1 = d.reset.1.withCap c := rfl
+
+theorem fitsCap_mono {c : Option Nat} {m n : Nat} (h : fitsCap c n) (hmn : m ≤ n) :
+    fitsCap c m := by
+  cases c with
+  | none => trivial
+  | some c => exact Nat.le_trans hmn h
+
+theorem dataStep_withCap (d : Dec) (c : Option Nat) (b : UInt8) :
+    (d.withCap c).dataStep b = (d.dataStep b).withCap c := by
+  unfold dataStep
+  by_cases hb : b = 0
+  · by_cases hz : d.zc ≤ 3
+    · simp only [hb, hz, if_true, withCap_zc]; rfl
+    · simp only [hb, hz, if_true, if_false, withCap_zc]; rfl
+  · simp only [hb, if_false]; rfl
+
+theorem dataSteps_withCap (l : List UInt8) : ∀ (d : Dec) (c : Option Nat),
+    (d.withCap c).dataSteps l = (d.dataSteps l).withCap c := by
+  induction l with
+  | nil => intro d c; rfl
+  | cons b l ih => intro d c; rw [dataSteps_cons, dataSteps_cons, dataStep_withCap, ih]
+
+/-- the result `x` over an unbounded buffer and the result `y` over a buffer of capacity `c`
+agree (up to the capacity itself) -/
+def Sim (c : Option Nat) (x y : Dec × Res) : Prop := y = (x.1.withCap c, x.2)
+
+theorem afterPush_sim {c : Option Nat} {d0 d : Dec} {l : List UInt8} {k k' : Dec → Dec × Res}
+    (hcap : d.buf.cap = none) (hroom : fitsCap c (d.dataSteps l).buf.len)
+    (hk : Sim c (k (d.dataSteps l)) (k' ((d.dataSteps l).withCap c))) :
+    Sim c (afterPush d0 (d.pushList l) k)
+      (afterPush (d0.withCap c) ((d.withCap c).pushList l) k') := by
+  have g := grow_dataSteps l d
+  have hwf1 : d.buf.WF := by unfold Buf.WF; rw [hcap]; trivial
+  have hwf2 : (d.withCap c).buf.WF := fitsCap_mono hroom g.mono
+  have hwf3 : (d.dataSteps l).buf.WF := by unfold Buf.WF; rw [g.cap, hcap]; trivial
+  have hwf4 : ((d.withCap c).dataSteps l).buf.WF := by rw [dataSteps_withCap]; exact hroom
+  rw [pushList_eq l hwf1, pushList_eq l hwf2, if_pos hwf3, if_pos hwf4, dataSteps_withCap]
+  exact hk
+
+theorem pushLook_sim (c : Option Nat) (d : Dec) (disc init : Nat) (b : UInt8) :
+    Sim c (pushLook d disc init b) (pushLook (d.withCap c) disc init b) := by
+  unfold pushLook
+  dsimp only
+  by_cases h1 : (b = 0x1b ∧ init < 4) ∨ (b = 0x01 ∧ init ≥ 4)
+  · simp only [h1, if_true]
+    by_cases h2 : init + 1 > 255
+    · simp only [h2, if_true]; rfl
+    · simp only [h2, if_false]
+      by_cases h3 : init + 1 = 8
+      · simp only [h3, if_true]
+        by_cases h4 : disc > 0
+        · simp only [h4, if_true, Sim, withCap]
+        · simp only [h4, if_false, Sim, withCap]
+      · simp only [h3, if_false]; rfl
+  · simp only [h1, if_false]
+    by_cases h5 : 1 + init < (if b = 0x1b then (if init = 4 then 4 else 1) else 0 : Nat)
+    · simp only [h5, if_true]; rfl
+    · simp only [h5, if_false]; rfl
+
+theorem pushEnd_sim {c : Option Nat} {d : Dec} (q : Quad) (hcap : d.buf.cap = none)
+    (hroom : fitsCap c (d.buf.len + d.zc)) :
+    Sim c (pushEnd d q) (pushEnd (d.withCap c) q) := by
+  have hwf1 : d.buf.WF := by unfold Buf.WF; rw [hcap]; trivial
+  have hwf2 : (d.withCap c).buf.WF := fitsCap_mono hroom (Nat.le_add_right _ _)
+  unfold pushEnd
+  dsimp only [withCap]
+  generalize (ofLe16 q.c q.d != crcFinal (crcUpdate d.crc [q.a, q.b]) || d.raw % 4 != 0 ||
+      decide (q.b > 3) || decide (d.raw < q.b.toNat + 16) || decide (q.b.toNat > d.zc)) = bad
+  cases bad with
+  | true => simp only [if_true]; rfl
+  | false =>
+    simp only [Bool.false_eq_true, if_false]
+    by_cases hlt : d.zc < q.b.toNat
+    · simp only [hlt, if_true]; rfl
+    · simp only [hlt, if_false]
+      rw [flush_eq (d := ⟨d.raw, crcInit, d.st, d.zc - q.b.toNat, d.buf⟩) hwf1,
+        flush_eq (d := ⟨d.raw, crcInit, d.st, d.zc - q.b.toNat, ⟨c, d.buf.rdata⟩⟩) hwf2]
+      have r1 : (⟨d.raw, crcInit, d.st, d.zc - q.b.toNat, d.buf⟩ : Dec).room (d.zc - q.b.toNat) :=
+        room_of_none hcap _
+      have r2 : (⟨d.raw, crcInit, d.st, d.zc - q.b.toNat, ⟨c, d.buf.rdata⟩⟩ : Dec).room
+          (d.zc - q.b.toNat) :=
+        fitsCap_mono hroom (by show d.buf.rdata.length + _ ≤ d.buf.rdata.length + _; omega)
+      simp only [r1, r2, if_true]
+      rfl
+
+theorem pushEscComplete_sim {c : Option Nat} {d : Dec} (q : Quad) (hcap : d.buf.cap = none)
+    (hroom : fitsCap c (d.buf.len + d.zc + 4)) :
+    Sim c (pushEscComplete d q) (pushEscComplete (d.withCap c) q) := by
+  unfold pushEscComplete
+  simp only [withCap_raw]
+  by_cases h1 : q = ⟨0x1b, 0x1b, 0x1b, 0x1b⟩
+  · simp only [h1, if_true]
+    refine afterPush_sim (d := { d with crc := crcUpdate d.crc _ })
+      (d0 := { d with crc := crcUpdate d.crc _ }) hcap ?_ rfl
+    have g := grow_dataSteps (Quad.toList ⟨0x1b, 0x1b, 0x1b, 0x1b⟩)
+      { d with crc := crcUpdate d.crc (Quad.toList ⟨0x1b, 0x1b, 0x1b, 0x1b⟩) }
+    refine fitsCap_mono hroom ?_
+    have := g.len
+    simp only [Quad.toList, List.length_cons, List.length_nil] at this ⊢
+    omega
+  · simp only [h1, if_false]
+    by_cases h2 : q = ⟨0x01, 0x01, 0x01, 0x01⟩
+    · simp only [h2, if_true]
+      by_cases h8 : d.raw < 8
+      · simp only [h8, if_true]; rfl
+      · simp only [h8, if_false, Sim, withCap, Buf.clear]
+    · simp only [h2, if_false]
+      by_cases h3 : q.a = 0x1a
+      · simp only [h3, if_true]
+        exact pushEnd_sim q hcap (fitsCap_mono hroom (by omega))
+      · simp only [h3, if_false]
+        by_cases hk : (4 - d.raw % 4) % 4 > 0 ∧
+            ((q.toList.take ((4 - d.raw % 4) % 4)).all (· = 0x1b)) ∧ q.get ((4 - d.raw % 4) % 4) = 0x1a
+        · have hk3 : (4 - d.raw % 4) % 4 ≤ 3 := by omega
+          simp only [hk, and_self, if_true]
+          rw [pushRep_eq_pushList, pushRep_eq_pushList]
+          refine afterPush_sim (d := { d with crc := crcUpdate d.crc _ })
+            (d0 := { d with crc := crcUpdate d.crc _ }) hcap ?_ rfl
+          have g := grow_dataSteps (List.replicate ((4 - d.raw % 4) % 4) 0x1b)
+            { d with crc := crcUpdate d.crc (q.toList.take ((4 - d.raw % 4) % 4)) }
+          refine fitsCap_mono hroom ?_
+          have := g.len
+          simp only [List.length_replicate] at this ⊢
+          omega
+        · simp only [hk, if_false]; rfl
+
+/-- one byte: if `raw + 1` fits the capacity `c`, the bounded decoder does exactly what the
+unbounded one does -/
+theorem pushByte_sim {c : Option Nat} {d : Dec} (h : Inv d) (hcap : d.buf.cap = none) (b : UInt8)
+    (hroom : d.st = .done ∨ fitsCap c (d.raw + 1)) :
+    Sim c (d.pushByte b) ((d.withCap c).pushByte b) := by
+  obtain ⟨hz, hwf, hst⟩ := h
+  rcases d with ⟨raw, crc, st, zc, buf⟩
+  simp only at hz hwf hst hcap
+  cases st with
+  | look disc init => exact pushLook_sim c _ _ _ _
+  | done => exact pushLook_sim c _ _ _ _
+  | normal =>
+    simp only at hst
+    have hroom : fitsCap c (raw + 1) := by simpa using hroom
+    simp only [pushByte, withCap]
+    by_cases hb : b = 0x1b
+    · simp only [hb, if_true]; rfl
+    · simp only [hb, if_false]
+      rw [pushData_eq_pushList, pushData_eq_pushList]
+      refine afterPush_sim (d := ⟨_, _, _, _, _⟩) (d0 := ⟨_, _, _, _, _⟩) hcap ?_ rfl
+      have g := grow_dataSteps [b]
+        { raw := raw + 1, crc := crcByte crc b, st := .normal, zc := zc, buf := buf }
+      refine fitsCap_mono hroom ?_
+      have := g.len
+      simp only [List.length_cons, List.length_nil] at this ⊢
+      omega
+  | escChars n =>
+    simp only at hst
+    have hroom : fitsCap c (raw + 1) := by simpa using hroom
+    simp only [pushByte, withCap]
+    by_cases hb : b = 0x1b
+    · simp only [hb, ne_eq, not_true_eq_false, if_false]
+      by_cases h3 : n = 3
+      · simp only [h3, if_true]; rfl
+      · simp only [h3, if_false]
+        by_cases h255 : n + 1 > 255
+        · simp only [h255, if_true]; rfl
+        · simp only [h255, if_false]; rfl
+    · simp only [ne_eq, hb, not_false_eq_true, if_true]
+      rw [pushRep_eq_pushList, pushRep_eq_pushList]
+      have g1 := grow_dataSteps (List.replicate n 0x1b)
+        { raw := raw + 1, crc := crcByte crc b, st := .escChars n, zc := zc, buf := buf }
+      have g2 := grow_dataSteps [b] (dataSteps
+        { raw := raw + 1, crc := crcByte crc b, st := .escChars n, zc := zc, buf := buf }
+        (List.replicate n 0x1b))
+      have l1 := g1.len
+      have l2 := g2.len
+      simp only [List.length_cons, List.length_nil, List.length_replicate] at l1 l2
+      refine afterPush_sim (d := ⟨_, _, _, _, _⟩) (d0 := ⟨_, _, _, _, _⟩) hcap ?_ ?_
+      · exact fitsCap_mono hroom (by omega)
+      · rw [pushData_eq_pushList, pushData_eq_pushList]
+        refine afterPush_sim (d0 := ⟨_, _, _, _, _⟩) (g1.cap.trans hcap) ?_ rfl
+        exact fitsCap_mono hroom (by omega)
+  | escPayload step q =>
+    simp only at hst
+    have hroom : fitsCap c (raw + 1) := by simpa using hroom
+    simp only [pushByte, withCap]
+    rcases hq : q.set step b with _ | q'
+    · rfl
+    · simp only
+      by_cases h3 : step < 3
+      · simp only [h3, if_true]; rfl
+      · simp only [h3, if_false]
+        exact pushEscComplete_sim (d := ⟨_, _, _, _, _⟩) _ hcap
+          (fitsCap_mono hroom (by simp only; omega))
+
+theorem push_sim {c : Option Nat} {d : Dec} (h : Inv d) (hcap : d.buf.cap = none) (b : UInt8)
+    (hroom : d.st = .done ∨ fitsCap c (d.raw + 1)) :
+    (d.withCap c).push b = ((d.push b).1.withCap c, (d.push b).2) := by
+  have hs : (d.withCap c).pushByte b = _ := pushByte_sim h hcap b hroom
+  rw [push_eq, push_eq, hs]
+  cases (d.pushByte b).2 <;> rfl
+
+/-- a whole byte string: a capacity of `raw` + the number of bytes to come always suffices -/
+theorem pushAll_sim {c : Option Nat} (s : List UInt8) : ∀ {d : Dec}, Inv d → d.buf.cap = none →
+    fitsCap c (d.raw + s.length) →
+    (d.withCap c).pushAll s = ((d.pushAll s).1.withCap c, (d.pushAll s).2) := by
+  induction s with
+  | nil => intro d _ _ _; rfl
+  | cons b bs ih =>
+    intro d h hcap hroom
+    rw [List.length_cons] at hroom
+    rw [pushAll_cons, pushAll_cons, push_sim h hcap b (Or.inr (fitsCap_mono hroom (by omega)))]
+    have hle := pushByte_raw_le h b
+    rw [← push_fst] at hle
+    rw [ih (push_inv h b) ((push_cap h b).trans hcap) (fitsCap_mono hroom (by omega))]
 
 end Dec
 
